@@ -8,7 +8,7 @@ TECHNIQUE = "static analysis over type-checked MIR: iterator-type and index-expr
 LEVEL_TEXT = """Static, all-paths decision of the shift/effect clauses: (R1) the shift loop iterates a reversed u32 range and moves pattern(i) to pattern(i+1) (both via replace("{}", i) and env expansion); (R2) the range is base .. base+count-1 as a linear form over the roller's own base/count (checked/unchecked variants alike); (R3) after the loop the rolled file is moved/compressed into pattern(base) and that error is propagated; (R4) count == 0 only removes the file and returns that result; (R5) move_file: rename first, Ok => Ok, NotFound => Ok, otherwise copy then remove the source only on success; (R6) compression arms: None => move_file, gzip/zstd => open, create, copy, finish, and remove the source only after finish succeeded; (R7) the roller modules' file-system mutators are within {rename, copy, remove_file, create_dir_all, File::create} and every path derives from the pattern+index, the rolled file or a temp name derived from it; (R8) DeleteRoller::roll = remove_file(file), result returned; (R9) no un-discharged panic site in the cone of the Roll implementations. Byte-for-byte contents after N rolls and the decompression round trip are not decided."""
 LEVEL_NOTE = "Trusted: rustc MIR/callee resolution; std::fs rename/copy/remove semantics; flate2/zstd encoders; str::replace. Decides the shape of the shift and the effect inventory on all paths, not directory contents."
 EXPLANATION = """Decided: R1 shift order, R2 range linear form, R3 final step, R4 count==0, R5 move_file contract, R6 compression ordering (configs with gzip/zstd), R7 effect inventory, R8 delete roller, R9 panic inventory. Undecided: contents after any number of rolls, decompression round trip, all initial directory states."""
-DECIDED = ["R1", "R2", "R3", "R4", "R5", "R6", "R7", "R8", "R9"]
+DECIDED = ["R1", "R2", "R3", "R4", "R5", "R6", "R7", "R8", "R9", "R11 a successful roll has taken the file away", "R12 staging name checked absent", "R13 archive write errors surface", "R14 one background rotation at a time; a lowered busy flag is always handed to a worker", "R5+ on every success path of move_file the source is gone"]
 UNDECIDED = ["byte-for-byte contents after N rolls", "decompression round trip (flate2/zstd trusted)", "initial directory states"]
 TRUSTED = ["rustc nightly MIR + Instance::try_resolve", "std::fs semantics", "flate2 / zstd", "external may-panic contract table"]
 
